@@ -733,6 +733,155 @@ def main():
     # ---- outer layer of process_message (C06 wrap / C08 routing; engine `wrap`) ---------------------------
     wrap_facts(facts, nat, boolean, strlist)
 
+    # ---- ffi facts (C06, first sentence): tables and parse plans of crates/mdk-uniffi/src/lib.rs ----------
+    ffi_rs = strip_comments(non_test(read("crates/mdk-uniffi/src/lib.rs")))
+    def enum_variants(src, name):
+        m = re.search(r"\benum\s+" + name + r"\s*\{", src)
+        if not m:
+            raise Missing(f"ffi:enum:{name}")
+        depth, j = 0, m.end() - 1
+        while j < len(src):
+            if src[j] == "{": depth += 1
+            elif src[j] == "}":
+                depth -= 1
+                if depth == 0: break
+            j += 1
+        body = re.sub(r"#\[[^\]]*\]", "", src[m.end():j])
+        vs = [v for v in re.findall(r"(?:^|,)\s*([A-Z][A-Za-z0-9]*)\s*(?=,|$|\(|\{)", body.strip(), re.S)]
+        if not vs:
+            raise Missing(f"ffi:enum:{name}:variants")
+        return vs
+    def impl_fn_body(src, impl_re, fn, fact):
+        m = re.search(impl_re, src)
+        if not m:
+            raise Missing(fact + ":impl")
+        return fn_body(src[m.start():], fn, fact)
+    def pairs_nat_bytes(ps): return "[" + ", ".join(f"({k}, {bytes_lit(t)})" for k, t in ps) + "]"
+    def pairs_bytes_nat(ps): return "[" + ", ".join(f"({bytes_lit(t)}, {k})" for t, k in ps) + "]"
+    def state_tables(lean, rel, enum):
+        src = strip_comments(non_test(read(rel)))
+        vs = enum_variants(src, enum)
+        a_body = impl_fn_body(src, r"\bimpl\s+" + enum + r"\s*\{", "as_str", f"ffi:{enum}:as_str")
+        f_body = impl_fn_body(src, r"\bimpl\s+(?:std::str::)?FromStr\s+for\s+" + enum + r"\b", "from_str", f"ffi:{enum}:from_str")
+        a = re.findall(r"Self\s*::\s*(\w+)\s*=>\s*\"((?:[^\"\\]|\\.)*)\"", a_body)
+        f = re.findall(r"\"((?:[^\"\\]|\\.)*)\"\s*=>\s*Ok\s*\(\s*Self\s*::\s*(\w+)\s*\)", f_body)
+        if len(a) != len(vs) or not f or any(v not in vs for v, _ in a) or any(v not in vs for _, v in f):
+            raise Missing(f"ffi:{enum}:arms")
+        # a catch-all arm that ACCEPTS would make the table incomplete: the only other arm must be an Err
+        others = re.findall(r"(?:^|[,{}])\s*(_|\w+)\s*=>\s*(\w+)", re.sub(r"\"(?:[^\"\\]|\\.)*\"\s*=>\s*Ok\s*\([^)]*\)\s*,?", "", f_body))
+        if any(res != "Err" for _, res in others):
+            raise Missing(f"ffi:{enum}:from_str-default-arm")
+        facts[lean + "Variants"] = ("Nat", str(len(vs)), f"{rel} enum {enum}: " + ", ".join(vs))
+        facts[lean + "AsStr"] = ("List (Nat × List Nat)", pairs_nat_bytes([(vs.index(v), t) for v, t in a]),
+                                 f"{rel} {enum}::as_str: " + ", ".join(f"{v}={t}" for v, t in a))
+        facts[lean + "FromStr"] = ("List (List Nat × Nat)", pairs_bytes_nat([(t, vs.index(v)) for t, v in f]),
+                                   f"{rel} impl FromStr for {enum}: " + ", ".join(f"{t}->{v}" for t, v in f))
+    state_tables("welcomeState", "crates/mdk-storage-traits/src/welcomes/types.rs", "WelcomeState")
+    state_tables("messageState", "crates/mdk-storage-traits/src/messages/types.rs", "MessageState")
+    state_tables("groupState", "crates/mdk-storage-traits/src/groups/types.rs", "GroupState")
+    # the binding turns the enums into strings with as_str() and (welcomes only) back with from_str()
+    for pat, fact in [(r"state\s*:\s*g\s*\.\s*state\s*\.\s*as_str\s*\(\s*\)", "ffi:Group.state=as_str"),
+                      (r"state\s*:\s*m\s*\.\s*state\s*\.\s*as_str\s*\(\s*\)", "ffi:Message.state=as_str"),
+                      (r"state\s*:\s*w\s*\.\s*state\s*\.\s*as_str\s*\(\s*\)", "ffi:Welcome.state=as_str"),
+                      (r"WelcomeState\s*::\s*from_str\s*\(\s*&\s*w\s*\.\s*state\s*\)", "ffi:welcome_from_uniffi=from_str")]:
+        if not re.search(pat, ffi_rs):
+            raise Missing(fact)
+    so_src = strip_comments(non_test(read("crates/mdk-storage-traits/src/groups/mod.rs")))
+    so_vs = enum_variants(so_src, "MessageSortOrder")
+    so_body = fn_body(ffi_rs, "parse_message_sort_order", "ffi:parse_message_sort_order")
+    so = re.findall(r"Some\s*\(\s*\"((?:[^\"\\]|\\.)*)\"\s*\)\s*=>\s*Ok\s*\(\s*Some\s*\(\s*MessageSortOrder\s*::\s*(\w+)\s*\)\s*\)", so_body)
+    if not so or any(v not in so_vs for _, v in so) or not re.search(r"None\s*=>\s*Ok\s*\(\s*None\s*\)", so_body) \
+       or not re.search(r"Some\s*\(\s*\w+\s*\)\s*=>\s*Err", so_body):
+        raise Missing("ffi:parse_message_sort_order:arms")
+    facts["ffiSortOrderTable"] = ("List (List Nat × Nat)", pairs_bytes_nat([(t, so_vs.index(v)) for t, v in so]),
+                                  "mdk-uniffi lib.rs parse_message_sort_order: " + ", ".join(f"{t}->{v}" for t, v in so) + "; None->None; anything else refused")
+    # which library call each parse helper is (the Lean model of the helper is chosen by this)
+    helper_calls = {"parse_group_id": r"hex\s*::\s*decode\s*\(\s*hex\s*\)", "parse_event_id": r"EventId\s*::\s*from_hex\s*\(\s*hex\s*\)",
+                    "parse_public_key": r"PublicKey\s*::\s*from_hex\s*\(\s*hex\s*\)", "parse_relay_urls": r"RelayUrl\s*::\s*parse\s*\(",
+                    "parse_json": r"serde_json\s*::\s*from_str\s*\(\s*json\s*\)", "parse_tags": r"Tag\s*::\s*parse\s*\(\s*tag_vec\s*\)"}
+    for h, pat in helper_calls.items():
+        if not re.search(pat, fn_body(ffi_rs, h, f"ffi:{h}")):
+            raise Missing(f"ffi:{h}:callee")
+    boolean("ffiGroupIdAnyLength", bool(re.search(r"GroupId\s*::\s*from_slice\s*\(\s*&\s*bytes\s*\)", fn_body(ffi_rs, "parse_group_id", "ffi:parse_group_id")))
+            and not re.search(r"\.len\s*\(\s*\)", fn_body(ffi_rs, "parse_group_id", "ffi:parse_group_id")),
+            "mdk-uniffi lib.rs parse_group_id: hex::decode then GroupId::from_slice, no length demand")
+    # parse plans: the ordered parse steps of every exported function (codes documented in Model/Ffi.lean `Stage.code`)
+    JSON_CTX = {"event JSON": 20, "rumor event JSON": 21, "welcome JSON": 22, "welcome event JSON": 23, "key package event JSON": 24}
+    STEP = re.compile(r"parse_group_id\s*\(|parse_event_id\s*\(|parse_public_key\s*\(|parse_relay_urls\s*\(|parse_message_sort_order\s*\(|parse_tags\s*\(|"
+                      r"parse_json\s*\([^,()]*,\s*\"([^\"]*)\"\s*\)|welcome_from_uniffi\s*\(|vec_to_array\s*::\s*<\s*(\d+)\s*>\s*\(|"
+                      r"hex\s*::\s*decode\s*\(\s*&\s*w\s*\.\s*nostr_group_id\s*\)|\"Nostr group ID must be 32 bytes\"|WelcomeState\s*::\s*from_str\s*\(|"
+                      r"EncryptionConfig\s*::\s*from_slice\s*\(|\"Expected hash must be 32 bytes\"|\"Image key must be 32 bytes\"|\"Image nonce must be 12 bytes\"|"
+                      r"self\s*\.\s*lock\s*\(\s*\)")
+    def steps(body, fact):
+        out = []
+        for m in STEP.finditer(body):
+            tok = m.group(0)
+            if tok.startswith("parse_group_id"): c = 1
+            elif tok.startswith("parse_event_id"): c = 2
+            elif tok.startswith("parse_public_key"): c = 3
+            elif tok.startswith("parse_relay_urls"): c = 4
+            elif tok.startswith("parse_message_sort_order"): c = 5
+            elif tok.startswith("parse_tags"): c = 6
+            elif tok.startswith("parse_json"):
+                if m.group(1) not in JSON_CTX: raise Missing(f"{fact}:json-context:{m.group(1)}")
+                c = JSON_CTX[m.group(1)]
+            elif tok.startswith("welcome_from_uniffi"): c = 16
+            elif tok.startswith("vec_to_array"):
+                if m.group(2) not in ("32", "12"): raise Missing(f"{fact}:vec_to_array:{m.group(2)}")
+                c = 9 if m.group(2) == "32" else 10
+            elif tok.startswith("hex"): c = 7
+            elif "Nostr group ID" in tok: c = 8
+            elif tok.startswith("WelcomeState"): c = 11
+            elif tok.startswith("EncryptionConfig"): c = 12
+            elif "Expected hash" in tok: c = 13
+            elif "Image key" in tok: c = 14
+            elif "Image nonce" in tok: c = 15
+            else: c = 17
+            out.append(c)
+        return out
+    exported = []
+    for m in re.finditer(r"#\[\s*uniffi\s*::\s*export\s*\]\s*(pub\s+fn\s+(\w+)|impl\s+Mdk\s*\{)", ffi_rs):
+        if m.group(2):
+            exported.append(m.group(2))
+        else:
+            depth, j = 0, m.end() - 1
+            while j < len(ffi_rs):
+                if ffi_rs[j] == "{": depth += 1
+                elif ffi_rs[j] == "}":
+                    depth -= 1
+                    if depth == 0: break
+                j += 1
+            exported += re.findall(r"\bpub\s+fn\s+(\w+)\s*\(", ffi_rs[m.end():j])
+    if len(exported) < 30 or len(set(exported)) != len(exported):
+        raise Missing("ffi:exported-functions")
+    plans = [(n, steps(fn_body(ffi_rs, n, f"ffi:fn:{n}"), f"ffi:fn:{n}")) for n in exported]
+    plans.append(("welcome_from_uniffi", steps(fn_body(ffi_rs, "welcome_from_uniffi", "ffi:welcome_from_uniffi"), "ffi:welcome_from_uniffi")))
+    facts["ffiPlans"] = ("List (List Nat × List Nat)", "[" + ", ".join(f"({bytes_lit(n)}, [{', '.join(map(str, cs))}])" for n, cs in plans) + "]",
+                         "mdk-uniffi lib.rs: the ordered parse steps of every #[uniffi::export] function (+ welcome_from_uniffi): " +
+                         "; ".join(f"{n}={','.join(map(str, cs))}" for n, cs in plans))
+    # the literal texts behind MdkUniffiError::InvalidInput, per parse step (read by vlib/ffieng.py to name the refusing step)
+    def inv_prefixes(body, fact):
+        ps = re.findall(r"InvalidInput\s*\(\s*(?:format!\s*\(\s*)?\"((?:[^\"\\]|\\.)*)\"", body)
+        if not ps:
+            raise Missing(fact + ":InvalidInput-text")
+        return [re.split(r"[:{]", p_)[0].strip() for p_ in ps]
+    ffi_prefixes = {}
+    for h, st in [("parse_group_id", "gid"), ("parse_event_id", "eid"), ("parse_public_key", "pk"), ("parse_relay_urls", "relay"),
+                  ("parse_message_sort_order", "sort"), ("parse_tags", "tag"), ("vec_to_array", "vec")]:
+        ffi_prefixes[st] = inv_prefixes(fn_body(ffi_rs, h, f"ffi:{h}"), f"ffi:{h}")[0]
+    ffi_prefixes["json"] = inv_prefixes(fn_body(ffi_rs, "parse_json", "ffi:parse_json"), "ffi:parse_json")[0]      # "Invalid" + context
+    wfu = inv_prefixes(fn_body(ffi_rs, "welcome_from_uniffi", "ffi:welcome_from_uniffi"), "ffi:welcome_from_uniffi")
+    if len(wfu) != 3:
+        raise Missing("ffi:welcome_from_uniffi:InvalidInput-texts")
+    ffi_prefixes["ngidhex"], ffi_prefixes["ngidlen"], ffi_prefixes["wstate"] = wfu
+    ffi_prefixes["enckey"] = inv_prefixes(fn_body(ffi_rs, "new_mdk_with_key", "ffi:new_mdk_with_key"), "ffi:new_mdk_with_key")[0]
+    dgi_p = inv_prefixes(fn_body(ffi_rs, "decrypt_group_image", "ffi:decrypt_group_image"), "ffi:decrypt_group_image")
+    if len(dgi_p) != 3:
+        raise Missing("ffi:decrypt_group_image:InvalidInput-texts")
+    ffi_prefixes["imghash"], ffi_prefixes["imgkey"], ffi_prefixes["imgnonce"] = dgi_p
+    ffi_prefixes["json_ctx"] = {v: k for k, v in JSON_CTX.items()}
+    ffi_prefixes["exported"] = exported
+
     # ---- emit -------------------------------------------------------------------------------
     lines = ["/- GENERATED by tools/gen_model.py from the current /repo source — do not edit. -/",
              "namespace MdkVerif.Generated", ""]
@@ -754,6 +903,7 @@ def main():
             f.write(text)
     out_facts = {k: v[1] for k, v in facts.items()}
     out_facts["leakTables"] = json.dumps(leak_summary, sort_keys=True)
+    out_facts["ffiErrorTexts"] = json.dumps(ffi_prefixes, sort_keys=True)
     json.dump(out_facts, sys.stdout, indent=0, sort_keys=True)
     print()
 
